@@ -61,6 +61,25 @@ func (cl *w4Conn) onUnsubPush(seq int64, ch string, code uint32) {
 			break
 		}
 	}
+	if c := cl.client; c != nil {
+		// (classification only) does the server still hold the very subscription this push
+		// claims to end? Client.Unsubscribe writes its push even when it removed nothing,
+		// e.g. when it ran before the subscribe command in flight had reserved the channel
+		c.mu.RLock()
+		ctx, ok := c.channels[w4Channel]
+		still := ok && channelHasFlag(ctx.flags, flagSubscribed) && c.status != statusClosed
+		c.mu.RUnlock()
+		resub := false
+		for _, cm := range cl.cmds {
+			if cm.Kind == "subscribe" && cm.Seq > cl.subSeq {
+				resub = true
+			}
+		}
+		if still && !resub {
+			cl.endWhy += " although the server did not end the subscription"
+			w.s.Probe("spurious_unsubscribe_push")
+		}
+	}
 	cl.endTrackingAll(seq, cl.endWhy)
 	if code == UnsubscribeCodeInsufficient {
 		w.s.Probe("insufficient_unsub")
@@ -165,6 +184,7 @@ func (cl *w4Conn) onCmdReply(seq int64, cmd *w4Cmd, rep *protocol.Reply) {
 				ks.trackedAt = w.s.Now()
 			}
 			ks.trackSendSeq = cmd.Seq
+			ks.trackCmd = cmd
 			ks.trackReplySeq = seq
 		}
 		for _, pub := range rep.SubRefresh.Items {
@@ -450,8 +470,17 @@ func (cl *w4Conn) resumeClass(k string, ks *w4KeyState) string {
 	if ks.ambig {
 		return w4Overlap
 	}
+	// the window is the server's handling of the track (trackKeys .. hub join), which goes on
+	// after the reply was written: it ends when the server is done with the command
+	winEnd := ks.trackReplySeq
+	if c := ks.trackCmd; c != nil && c.Seq == ks.trackSendSeq && (c.DoneSeq == 0 || c.DoneSeq > winEnd) {
+		winEnd = c.DoneSeq
+		if winEnd == 0 {
+			winEnd = 1 << 62
+		}
+	}
 	for _, p := range cl.w.provided {
-		if p.Key == k && p.Seq > ks.trackSendSeq && p.Seq < ks.trackReplySeq {
+		if p.Key == k && p.Seq > ks.trackSendSeq && p.Seq < winEnd {
 			return " [a poll answer or publish for the key completed while the track was in flight]"
 		}
 	}
